@@ -5,6 +5,11 @@ import json, subprocess
 props = [json.loads(l) for l in open('/verif/properties.jsonl')]
 
 CLAIMED = {
+ "C18": dict(level="exploration",
+   text="Two real Btp ends joined by an in-harness GATT pipe exchange generated messages (0..max length, every negotiated segment size and window, sequence wrap) under generated schedules of send/poll/receive/clock steps, and under verbatim copies of the in-tree driver loops on the virtual clock; an independent header parser on the pipe checks delivery (intact, once, in order), consecutive sequence numbers, window limits, last-slot rule, segment sizes and the acknowledgement deadline. A hostile mode drives one real Btp end with model-relative faulty segments (wrong sequence, overrun, bogus ack, begin+continue, length faults, data before handshake, arbitrary handshakes, raw bytes): must-refuse classes are refused, nothing is delivered that was not framed, no panic or overflow.",
+   note="Open known finding: the handshake version selection (wrong nibble mask) cannot be repaired without editing the repository's tests. Segment shapes the statement does not classify (non-full non-final segments, reserved flags, repeated acks) only get the no-panic and data-integrity checks.",
+   technique="proptest stateful conversations with independent wire-level checker + model-relative hostile segment injection",
+   design="3/C18"),
  "C10": dict(level="exploration",
    text="A device with generated handler behaviours (echo, echo late, silent, hold, drop after the first answer) serves 1-4 concurrent multi-round exchanges of an honest controller on planted sessions while an authenticated third peer (the harness, holding that session's keys, acknowledging what it is sent) injects crafted secured messages with arbitrary exchange id / initiator flag / R-A flags (application requests, stand-alone acks, status reports, CloseSession) and unsecured strays for unknown sessions, under a generated poll order. Invariants: a handler only ever sees messages of its own (session, exchange id, role); exchanges are opened only by initiator requests; stand-alone acks and answers to unknown exchanges reach nobody; the controller never gets a foreign response; a probe request after the disturbance is answered; all traffic stops and every exchange slot is free after bounded virtual time (no datagram storm).",
    note="Head-of-line blocking by the single receive slot (a message for an owned exchange whose owner is busy sending delays everybody for up to one retransmission ladder) is observed and documented, not judged a violation: the message is eventually picked up. Sessions are planted; eviction-driven session loss is covered by C20.",
